@@ -28,9 +28,22 @@
     and exactly everything on nodes when no shared-GPU pod is operated on
     ([_nonshared]).  A double eviction of one pod (known finding
     C13-double-evict) is excluded by [wf_cmd]; without that clause Commit emits
-    two Evict calls for the pod ([C13_commit_double_evict_witness]). *)
+    two Evict calls for the pod ([C13_commit_double_evict_witness]).
+
+    Section 4 ties Commit to a specification that does not look at the
+    operation log at all (Model/SessionSpec.v): [valid_steps fails S prog] is
+    computed from the commands of [prog] and, for each command, the place of
+    its pod before the command (Evict adds a valid eviction; Unevict, or
+    Pipeline onto the pod's own node and devices, withdraws the pod's earliest
+    valid eviction; Rollback goes back to the valid steps of the checkpoint;
+    Discard empties).  Commit emits exactly one call per valid step, of its
+    kind, in order - nothing for a pod whose evictions were all undone
+    ([C13_commit_log_spec]); and an Unevict that withdraws the only valid
+    eviction of a pod is a rollback of that eviction
+    ([C13_unevict_restores]). *)
 From Coq Require Import List ZArith PArith Bool.
-From KaiV Require Import Model.Res Model.Status Model.AMap Model.Node Model.NodeSpec Model.Session Proofs.Node Proofs.Session.
+From KaiV Require Import Model.Res Model.Status Model.AMap Model.Node Model.NodeSpec Model.Session Model.SessionSpec
+  Proofs.Node Proofs.Session Proofs.SessionLog.
 Import ListNotations.
 
 (** ** 1. Rollback to a checkpoint *)
@@ -199,6 +212,103 @@ Theorem C13_commit_double_evict_witness :
   /\ wf_from any_task nofail [] false w3_init [Evict 3; Evict 3] = false.
 Proof. exact commit_double_evict_witness. Qed.
 Print Assumptions C13_commit_double_evict_witness.
+
+(** ** 4. Commit and Unevict against the log-level specification (Model/SessionSpec.v)
+
+    [valid_steps fails S prog]: the steps still valid after [prog] according to
+    the command history; [expect_calls]: one (kind, pod) per valid step, kind =
+    eviction / nomination / bind; [call_key]: kind and pod of an emitted call. *)
+
+(** After a well-formed open statement on a session whose pod map is keyed by
+    pod id, for every failure oracle: the calls of Commit are, in order, exactly
+    the still-valid steps - every valid step is emitted, once, with its kind,
+    and nothing is emitted for an undone step (a pod whose evictions were all
+    undone is not evicted) - up to the end, or up to a Bind whose Cache call
+    fails (Commit returns there). *)
+Theorem C13_commit_log_spec : forall (fails : nat -> bool) (S : sess) (prog : list cmd),
+  keyed_b S = true -> s_log S = [] -> s_stuck S = false -> forallb open_cmd prog = true ->
+  wf_from any_task fails [] false S (prog ++ [Commit]) = true ->
+  exists rest,
+    expect_calls (valid_steps fails S prog) = map call_key (snd (step fails (Session.run fails S prog) Commit)) ++ rest
+    /\ (rest = [] \/ exists pre p n g,
+          snd (step fails (Session.run fails S prog) Commit) = pre ++ [ABind p n g]
+          /\ fails (s_ncalls (Session.run fails S prog) + length pre)%nat = true).
+Proof. exact commit_log_exact. Qed.
+Print Assumptions C13_commit_log_spec.
+
+(** when no Cache call fails: equality *)
+Theorem C13_commit_log_spec_no_failure : forall (fails : nat -> bool) (S : sess) (prog : list cmd),
+  (forall i, fails i = false) ->
+  keyed_b S = true -> s_log S = [] -> s_stuck S = false -> forallb open_cmd prog = true ->
+  wf_from any_task fails [] false S (prog ++ [Commit]) = true ->
+  map call_key (snd (step fails (Session.run fails S prog) Commit)) = expect_calls (valid_steps fails S prog).
+Proof. exact commit_log_exact_nofail. Qed.
+Print Assumptions C13_commit_log_spec_no_failure.
+
+(** without the assumption on the pod map, for every failure oracle: the calls
+    with their kinds are a subsequence of the still-valid steps (nothing for an
+    undone step, nothing twice, nothing of another kind, in order) *)
+Theorem C13_commit_log_spec_only_valid : forall (fails : nat -> bool) (S : sess) (prog : list cmd),
+  s_log S = [] -> s_stuck S = false -> forallb open_cmd prog = true ->
+  wf_from any_task fails [] false S (prog ++ [Commit]) = true ->
+  subseq (map call_key (snd (step fails (Session.run fails S prog) Commit)))
+         (expect_calls (valid_steps fails S prog)).
+Proof. exact commit_log_sound. Qed.
+Print Assumptions C13_commit_log_spec_only_valid.
+
+(** Evict p ... Unevict p in a well-formed open statement, where Evict p is
+    well-formed (p has no valid eviction before it, so the Unevict leaves p
+    without a valid eviction) and what happened in between is no longer in
+    effect (the log is again the one the eviction produced and the session is
+    related to the one it produced: nothing or checkpoints in between, or steps
+    that were rolled back): the session is related to the one BEFORE the
+    eviction; [C13_restored_meaning] spells the relation out (every pod's
+    status, node, virtual flag; every job's books; every queue's usage; nodes
+    up to the whole-GPU columns). *)
+Theorem C13_unevict_restores : forall (fails : nat -> bool) (S : sess) (prog mid : list cmd) (pid : positive),
+  s_log S = [] -> s_stuck S = false -> forallb open_cmd (prog ++ Evict pid :: mid) = true ->
+  wf_from any_task fails [] false S ((prog ++ Evict pid :: mid) ++ [Unevict pid]) = true ->
+  s_log (Session.run fails S (prog ++ Evict pid :: mid)) = s_log (Session.run fails S (prog ++ [Evict pid])) ->
+  srel neq (Session.run fails S (prog ++ [Evict pid])) (Session.run fails S (prog ++ Evict pid :: mid)) ->
+  srel neq (Session.run fails S prog) (Session.run fails S ((prog ++ Evict pid :: mid) ++ [Unevict pid])).
+Proof. exact unevict_restores. Qed.
+Print Assumptions C13_unevict_restores.
+
+Theorem C13_unevict_restores_adjacent : forall (fails : nat -> bool) (S : sess) (prog : list cmd) (pid : positive),
+  s_log S = [] -> s_stuck S = false -> forallb open_cmd prog = true ->
+  wf_from any_task fails [] false S (prog ++ [Evict pid; Unevict pid]) = true ->
+  srel neq (Session.run fails S prog) (Session.run fails S (prog ++ [Evict pid; Unevict pid])).
+Proof. exact unevict_restores_adjacent. Qed.
+Print Assumptions C13_unevict_restores_adjacent.
+
+(** the hypotheses of [C13_unevict_restores] with something in between: evict
+    pod 4, checkpoint, evict pod 6, roll back, un-evict pod 4 *)
+Theorem C13_unevict_restores_rolled_back_witness :
+  wf_from any_task nofail [] false w10_init (([] ++ Evict 4 :: wl_mid) ++ [Unevict 4]) = true
+  /\ srel neq w10_init (Session.run nofail w10_init (([] ++ Evict 4 :: wl_mid) ++ [Unevict 4])).
+Proof. exact unevict_restores_rolled_back_witness. Qed.
+Print Assumptions C13_unevict_restores_rolled_back_witness.
+
+(** the specification on concrete statements: evict, un-evict, evict, un-evict
+    of pod 3 leaves no valid step and Commit emits nothing; after the first
+    three commands the second eviction is valid and Commit emits it; a statement
+    with an eviction withdrawn by Pipeline onto the pod's own node (pod 4), an
+    evicted pod nominated on another node (6) and a pending pod nominated (8) *)
+Theorem C13_log_spec_nonvacuous :
+  keyed_b w3_init = true
+  /\ wf_from any_task nofail [] false w3_init (wl_twice ++ [Commit]) = true
+  /\ valid_steps nofail w3_init wl_twice = []
+  /\ snd (step nofail (Session.run nofail w3_init wl_twice) Commit) = []
+  /\ valid_steps nofail w3_init (firstn 3 wl_twice) = [VEv 3 [] 2]
+  /\ snd (step nofail (Session.run nofail w3_init (firstn 3 wl_twice)) Commit) = [AEvict 3]
+  /\ keyed_b w10_init = true
+  /\ wf_from any_task nofail [] false w10_init (w10_open ++ [Commit]) = true
+  /\ nth_error w10_open 4 = Some (Pipeline 4 1 (Some [14%positive]) false)
+  /\ valid_steps nofail w10_init w10_open = [VEv 6 [] 1; VPl false 8 1 2; VPl false 6 2 4]
+  /\ snd (step nofail (Session.run nofail w10_init w10_open) Commit)
+     = [AEvict 6; APipe 8 (Some 1%positive) []; APipe 6 (Some 2%positive) []].
+Proof. exact log_spec_nonvacuous. Qed.
+Print Assumptions C13_log_spec_nonvacuous.
 
 (** ** Non-vacuity *)
 Theorem C13_nonvacuous :
